@@ -2,5 +2,7 @@ SPECIFICATION Spec
 CONSTANT DevBfs = FALSE
 INVARIANT WindowLaws
 INVARIANT RingLaw
+INVARIANT Window2Law
+INVARIANT Ring2Law
 INVARIANT ExportInv
 CHECK_DEADLOCK FALSE
